@@ -12,9 +12,22 @@ pub struct Script {
     pub violation: Option<Violation>,
 }
 
+thread_local! {
+    static SCRIPT_FOCUS: std::cell::Cell<Option<&'static str>> = std::cell::Cell::new(None);
+}
+
 impl Script {
     pub fn new(cluster: ClusterCfg) -> Script {
-        Script { world: World::new(cluster), trace: Vec::new(), violation: None }
+        let mut world = World::new(cluster);
+        world.focus = SCRIPT_FOCUS.with(|f| f.get());
+        Script { world, trace: Vec::new(), violation: None }
+    }
+    /// Run a scripted scenario with the monitors in focus mode for one property.
+    pub fn with_focus(f: fn() -> Script, focus: &'static str) -> Script {
+        SCRIPT_FOCUS.with(|c| c.set(Some(focus)));
+        let s = f();
+        SCRIPT_FOCUS.with(|c| c.set(None));
+        s
     }
     pub fn act(&mut self, a: Action) -> bool {
         if self.violation.is_some() {
@@ -141,4 +154,61 @@ pub fn s3() -> Script {
     s.sync_round(4);
     s.deliver_where(|k, m| k.t == 5 && m.get_msg_type() == T::MsgRequestVoteResponse);
     s
+}
+
+/// C07 race: a persistence notice for an in-flight Ready arrives after a new leader's append truncated the
+/// unstable log back to exactly the last index of that Ready (and carried a commit index covering it),
+/// and before the next Ready is taken. The entry at that index must not be handed out for apply: it is
+/// the new, unpersisted one. Five voters; node 3 persists asynchronously and reports persistence late
+/// (`Fsync{defer}` + `Notify`).
+pub fn persist_notice_after_truncation() -> Script {
+    use raft::eraftpb::MessageType as T;
+    let mut s = Script::new(cluster(vec![1, 2, 3, 4, 5], 5));
+    s.act(Action::Campaign { n: 1 });
+    s.settle(&[1, 2, 3, 4, 5]);
+    // entry 2 of term 1 reaches node 3 only, which writes it without fsync
+    s.act(Action::Propose { n: 1, id: 1, size: 8 });
+    s.sync_round(1);
+    s.deliver_where(|k, m| k.f == 1 && k.t == 3 && m.get_msg_type() == T::MsgAppend);
+    s.act(Action::AppReady { n: 3, mode: Mode::Async, skip_fsync: false, force: false });
+    s.drop_where(|k, _| k.f == 1);
+    // node 1 is cut off; node 2 wins term 2 with {2,4,5} and commits its entry at index 2
+    s.act(Action::Campaign { n: 2 });
+    s.sync_round(2);
+    s.deliver_where(|k, m| k.f == 2 && (k.t == 4 || k.t == 5) && m.get_msg_type() == T::MsgRequestVote);
+    s.drop_where(|k, _| k.f == 2 && (k.t == 1 || k.t == 3));
+    s.sync_round(4);
+    s.sync_round(5);
+    s.deliver_where(|k, _| k.t == 2);
+    s.sync_round(2);
+    for _ in 0..4 {
+        s.drop_where(|k, _| k.t == 1 || k.t == 3 || k.f == 1 || k.f == 3);
+        s.settle(&[2, 4, 5]);
+    }
+    s.drop_where(|k, _| k.t == 1 || k.t == 3);
+    // heartbeat reaches node 3; its answer needs the in-flight writes to be durable; the application
+    // sends the answer as soon as the write finished and tells raft later
+    s.act(Action::Tick { n: 2 });
+    s.sync_round(2);
+    s.deliver_where(|k, m| k.f == 2 && k.t == 3 && m.get_msg_type() == T::MsgHeartbeat);
+    s.drop_where(|k, _| k.t == 1);
+    s.act(Action::AppReady { n: 3, mode: Mode::Async, skip_fsync: false, force: false });
+    s.act(Action::Fsync { n: 3, count: u32::MAX, defer: true });
+    s.deliver_where(|k, m| k.f == 3 && k.t == 2 && m.get_msg_type() == T::MsgHeartbeatResponse);
+    s.sync_round(2);
+    // the leader's append: anchored at index 1, entry 2 of term 2, commit 2 -> truncates node 3's log at 2
+    s.deliver_where(|k, m| k.f == 2 && k.t == 3 && m.get_msg_type() == T::MsgAppend);
+    s.act(Action::Notify { n: 3 });
+    s.act(Action::AppReady { n: 3, mode: Mode::Async, skip_fsync: false, force: false });
+    s.act(Action::Fsync { n: 3, count: u32::MAX, defer: false });
+    s.settle(&[2, 3, 4, 5]);
+    s
+}
+
+/// Scripted scenarios that every check of the property runs besides its random profile.
+pub fn for_property(id: &str) -> Vec<(&'static str, fn() -> Script)> {
+    match id {
+        "C07" | "C14" => vec![("persist_notice_after_truncation", persist_notice_after_truncation)],
+        _ => vec![],
+    }
 }
